@@ -221,14 +221,33 @@ Definition q_rate := gg_rate Q 0 Qplus Qmult Qminus (1 # 2).
 
 Definition count_nonzero (b : list Q) : nat := length (filter (fun x => negb (Qeq_bool x 0)) b).
 
-(* m of the Gaussian-Gamma pairs: len(b), resp. np.count_nonzero(b) for the regularized pair *)
-Definition sampler_m (k : lik_kind) (b : list Q) : nat :=
-  if is_reg k then count_nonzero b else length b.
+(* m of the Gaussian-Gamma pairs (after fix 2db3e3f): the rank of the likelihood's distribution at unit
+   hyper-parameter -- dim = len(b) for a Gaussian with scalar/vector/diagonal covariance or precision, the stored
+   rank for a GMRF -- resp. np.count_nonzero(b) for the regularized pair *)
+Definition sampler_m (k : lik_kind) (gmrf_rank : nat) (b : list Q) : nat :=
+  if is_reg k then count_nonzero b else match k with KGMRF => gmrf_rank | _ => length b end.
 
-(* GMRF.__init__: self._rank = dim for bc 'zero', dim - 1 for 'periodic'/'neumann' *)
+(* GMRF.__init__: self._rank = dim - nullity.  Two rules exist: the one in the tree today (nullity 1 for every
+   periodic/neumann field) and the one of fixes/C20_gmrf_rank_rule.diff (order 0: the precision is the identity,
+   nullity 0; order 2 with neumann boundaries: the affine functions per axis, nullity 2^physical_dim; otherwise the
+   constants, nullity 1).  The harness probes which rule the tree implements and the model is evaluated under it. *)
 Inductive bc_type := BZero | BPeriodic | BNeumann.
-Definition gmrf_code_rank (bc : bc_type) (dim : nat) : nat :=
-  match bc with BZero => dim | _ => (dim - 1)%nat end.
+Inductive rank_rule := RuleDimMinus1 | RuleNullity.
+Definition gmrf_nullity (rule : rank_rule) (bc : bc_type) (order physdim : nat) : nat :=
+  match bc with
+  | BZero => 0
+  | _ => match rule with
+         | RuleDimMinus1 => 1
+         | RuleNullity =>
+             match order with
+             | O => 0
+             | 2%nat => match bc with BNeumann => Nat.pow 2 physdim | _ => 1 end
+             | _ => 1
+             end
+         end
+  end%nat.
+Definition gmrf_code_rank (rule : rank_rule) (bc : bc_type) (order physdim dim : nat) : nat :=
+  (dim - gmrf_nullity rule bc order physdim)%nat.
 (* GMRF.__init__: chol of P for 'zero', of P + sqrt(eps) I otherwise; sqrt(2^-52) = 2^-26 exactly *)
 Definition sqrt_eps : Q := 1 # 67108864.
 Definition gmrf_reg (bc : bc_type) : Q := match bc with BZero => 0 | _ => sqrt_eps end.
@@ -308,13 +327,13 @@ Definition probe_res_eqb (a b : probe_res) : bool :=
 Definition check_probes (f : fval) (obs_id : bool) (obs_rec : probe_res) : bool :=
   Bool.eqb (probe_identity f) obs_id && probe_res_eqb (probe_reciprocal f) obs_rec.
 
-(* shape: exact.  use_rank = false: the code as it is (m = len(b) / count_nonzero(b));
-   use_rank = true: the repaired code (fixes/C10_gmrf_rank.diff: m = rank of the likelihood's distribution). *)
-Definition check_shape (k : lik_kind) (use_rank : bool) (rank : nat) (b : list Q) (alpha obs_shape : Q) : bool :=
-  Qeq_bool obs_shape (q_shape (if use_rank then rank else sampler_m k b) alpha).
+(* shape: exact.  gmrf_rank is the MODEL's rank (gmrf_code_rank under the probed rule) -- not an observed number *)
+Definition check_shape (k : lik_kind) (gmrf_rank : nat) (b : list Q) (alpha obs_shape : Q) : bool :=
+  Qeq_bool obs_shape (q_shape (sampler_m k gmrf_rank b) alpha).
 
 (* target-side bookkeeping the theorems talk about: observed GMRF._rank vs gmrf_code_rank *)
-Definition check_rank (bc : bc_type) (dim obs_rank : nat) : bool := Nat.eqb obs_rank (gmrf_code_rank bc dim).
+Definition check_rank (rule : rank_rule) (bc : bc_type) (order physdim dim obs_rank : nat) : bool :=
+  Nat.eqb obs_rank (gmrf_code_rank rule bc order physdim dim).
 
 Definition qdotq := dot 0 Qplus Qmult.
 Definition qmatvecq := matvec 0 Qplus Qmult.
@@ -337,6 +356,9 @@ Definition mat_close (tol : Q) (A B : list (list Q)) : bool :=
    reg = what the code adds before factorising (0 or 2^-26), L = the implementation's sqrtprec at unit
    hyper-parameter (certificate: its law  L^T L = P + reg I  is checked here, not assumed),
    obs_scale = the `scale` argument numpy.random.gamma received (= 1/rate). *)
+(* purely relative closeness (rates are positive; data are swept over scales 2^-12 .. 2^12) *)
+Definition q_rel (tol a b : Q) : bool := Qle_bool (Qabs (a - b)) (tol * Qabs b).
+
 Definition check_rate (n : nat) (P : list (list Q)) (reg : Q) (L : list (list Q)) (Ax b : list Q) (beta : Q)
                       (obs_rate obs_scale : Q) : bool :=
   let Preg := mat_add_diag n P reg in
@@ -344,8 +366,8 @@ Definition check_rate (n : nat) (P : list (list Q)) (reg : Q) (L : list (list Q)
   let r_model := q_rate L Ax b beta in
   let r_target := (1 # 2) * qdotq v (qmatvecq Preg v) + beta in
   mat_close tol9 (gram n L) Preg
-  && q_close tol9 obs_rate r_model
-  && q_close tol9 obs_rate r_target
+  && q_rel tol9 obs_rate r_model
+  && q_rel tol9 obs_rate r_target
   && q_close tol9 (obs_scale * r_model) 1.
 
 (* ConjugateApprox: w_i certificates for 1/sqrt((Dx)_i^2 + 1e-5), law checked: w_i^2 ((Dx)_i^2 + 1e-5) = 1 *)
@@ -359,7 +381,7 @@ Fixpoint approx_w_ok (dx w : list Q) : bool :=
 Definition check_approx (D : list (list Q)) (x w : list Q) (alpha beta obs_shape obs_rate : Q) : bool :=
   Qeq_bool obs_shape (approx_shape (length x) alpha)
   && approx_w_ok (qmatvecq D x) w
-  && q_close tol9 obs_rate (approx_rate D x w beta).
+  && q_rel tol9 obs_rate (approx_rate D x w beta).
 
 (* Direct: the chain produced by Direct under a scripted stream vs the table of what target.sample() returns
    under the same scripts (rnd = index into the table) *)
